@@ -229,7 +229,8 @@ class Job:
             loops.append((lm.group(1), int(lm.group(3)), int(lm.group(4) or 0)))
         pairs = []
         for func_sub, rank, bound in us:
-            cands = [l for l in loops if func_sub in l[0]]
+            # the function itself, not closures inside it or generic instantiations that mention it
+            cands = [l for l in loops if l[0].rsplit(".", 1)[0].endswith(func_sub)]
             funcs = []
             for l in cands:
                 f = l[0].rsplit(".", 1)[0]
@@ -245,7 +246,9 @@ class Job:
                 elif rank < len(ids):
                     pairs.append((ids[rank][0], bound))
                 else:
-                    raise RuntimeError(f"unwindset: function {func_sub} has only {len(ids)} loops, rank {rank} requested")
+                    # the code was restructured (fewer loops than when the bound was chosen): apply the
+                    # bounds that still have a loop; unwinding assertions keep the verdict sound
+                    log(f"  note: {self.name}: {func_sub} has only {len(ids)} loops, bound for rank {rank} skipped")
         return pairs
 
     def run(self):
